@@ -3,6 +3,7 @@ package c06
 import (
 	"context"
 	"fmt"
+	"net/url"
 	"os"
 	"sort"
 	"strings"
@@ -203,7 +204,13 @@ func build(routes []string, methods []string, order []int) (r *rig, ok bool) {
 			r, ok = nil, false
 		}
 	}()
-	h := server.New()
+	var h *server.Hertz
+	if rawMode {
+		// the router works on the target as it was sent; parameter values are unescaped afterwards
+		h = server.New(server.WithUseRawPath(true))
+	} else {
+		h = server.New()
+	}
 	r = &rig{eng: h.Engine}
 	// 0..5 engine middlewares added by separate Use calls (the handler slice of the root group then
 	// has spare capacity for some counts): every route must still run its own handler
@@ -307,7 +314,7 @@ func checkSet(routes, methods []string, orders [][]int, paths []string, reqMetho
 				continue
 			}
 			pd := p
-			if d, ok := decodedPath[p]; ok {
+			if d, ok := decodedPath[p]; ok && !rawMode {
 				pd = d // the router works on the decoded path
 			}
 			a := rt.match(pd, false)
@@ -336,7 +343,14 @@ func checkSet(routes, methods []string, orders [][]int, paths []string, reqMetho
 			}
 			var ps []string
 			for k, name := range rt.names[a.route] {
-				ps = append(ps, name+"="+a.values[k])
+				v := a.values[k]
+				if rawMode {
+					// UnescapePathValues (on by default): the matched piece of the raw target, unescaped
+					if u, err := url.PathUnescape(v); err == nil {
+						v = u
+					}
+				}
+				ps = append(ps, name+"="+v)
 			}
 			if wantP := strings.Join(ps, ","); first.params != wantP {
 				return fmt.Sprintf("%s %s matched %q: params %q, want %q", m, p, routes[want], first.params, wantP), st
@@ -525,6 +539,11 @@ func genPattern(t *rapid.T) string {
 // ("a+b", "k%41", "%2F") is the parameter value; it is not decoded a second time
 var fillValues = []string{"a", "b", "ab", "abc", "users", "user", "u", "v1", "x", "zz", "a:b", "9", "a+b", "k%2541", "%252F", "+"}
 
+// rawMode: the engines of the current set are built with UseRawPath (the route is chosen on the raw
+// request target, escapes included; '+' is kept out of raw-mode paths because hertz unescapes path
+// values with query rules, which turns it into a blank: noted, not judged here).
+var rawMode bool
+
 // decodedPath maps a generated request path to its once-decoded form (only for paths with escapes).
 var decodedPath = map[string]string{}
 
@@ -617,8 +636,29 @@ func TestC06Random(t *testing.T) {
 		}
 		orders = append(orders, rev)
 		paths := derivePaths(t, routes)
+		rawMode = rapid.IntRange(0, 3).Draw(t, "useRawPath") == 0
+		if rawMode {
+			// escaped separators and letters inside parameter values: what the option is for
+			var more []string
+			for _, p := range paths {
+				if !strings.Contains(p, "+") {
+					more = append(more, p)
+				}
+				for _, esc := range [][2]string{{"a", "a%2Fb"}, {"b", "%41%41"}, {"users", "k%20"}, {"x", "%2F"}} {
+					if !strings.Contains(p, "+") && strings.Contains(p, "/"+esc[0]) && rapid.IntRange(0, 2).Draw(t, "escapeSegment") == 0 {
+						more = append(more, strings.Replace(p, "/"+esc[0], "/"+esc[1], 1))
+					}
+				}
+			}
+			paths = more
+		}
 		msg, st := checkSet(routes, methods, orders, paths, []string{"GET", "POST"})
+		rawWas := rawMode
+		rawMode = false
 		cls := []string{}
+		if rawWas {
+			cls = append(cls, "use-raw-path")
+		}
 		if st.skipped {
 			cls = append(cls, "rejected-by-registration")
 		} else {
